@@ -81,6 +81,10 @@ def setup(state: Dict[str, Any]) -> None:
         if len(viol) < 40:
             viol.append({"key": key, "msg": msg, "detail": d})
 
+    def _plist(x):
+        """a group's "params" as torch.optim reads it: one tensor, or any iterable of tensors"""
+        return [x] if isinstance(x, torch.Tensor) else list(x)
+
     def snap(params, lr):
         """Taken before the call. Generators cannot be peeked without consuming them: the harness
         hands such inputs over as a recording iterable instead (see RecordingIter)."""
@@ -89,7 +93,7 @@ def setup(state: Dict[str, Any]) -> None:
         if isinstance(src, (list, tuple)):
             for e in src:
                 if isinstance(e, dict):
-                    d = {"dict": e, "keys": list(e.keys()), "params_obj": e["params"], "params_ids": [id(p) for p in e["params"]], "vals": {}}
+                    d = {"dict": e, "keys": list(e.keys()), "params_obj": e["params"], "params_ids": [id(p) for p in _plist(e["params"])], "vals": {}}
                     for k, v in e.items():
                         if k == "params":
                             continue
@@ -121,7 +125,7 @@ def setup(state: Dict[str, Any]) -> None:
         flat = []  # (param object, source dict or None)
         for e in s["entries"]:
             if "dict" in e:
-                for pid, p in zip(e["params_ids"], e["params_obj"]):
+                for pid, p in zip(e["params_ids"], _plist(e["params_obj"])):
                     flat.append((p, e))
             else:
                 flat.append((e["tensor_entry"], None))
@@ -143,7 +147,7 @@ def setup(state: Dict[str, Any]) -> None:
             d = e["dict"]
             if list(d.keys()) != e["keys"]:
                 rec("C11:caller-group-keys-changed" + suffix, f"{e['keys']} -> {list(d.keys())}")
-            if d["params"] is not e["params_obj"] or [id(p) for p in d["params"]] != e["params_ids"]:
+            if d["params"] is not e["params_obj"] or [id(p) for p in _plist(d["params"])] != e["params_ids"]:
                 rec("C11:caller-group-params-list-changed" + suffix, "the caller's params list was replaced or edited")
             for k, old in e["vals"].items():
                 if k not in d:
@@ -264,6 +268,12 @@ def run_case(case: Dict[str, Any], ctx) -> None:
             all_params.append(p)
             p0.append(data.clone())
         g: Dict[str, Any] = {"params": ps}
+        pf = rng_for(case["seed"], "pform", len(built_groups)).random()
+        if pf < 0.15:
+            g["params"] = tuple(ps)
+        elif pf < 0.35 and len(ps) == 1:
+            g["params"] = ps[0]  # torch.optim accepts ONE tensor here
+            ctx.count("form:group-params-as-a-single-tensor")
         if gspec["lr"] is not None:
             g["lr"] = shared_lr_tensor if (shared_lr_tensor is not None and case["share_tensor_lr"]) else mk_lr(gspec["lr"])
         if gspec["wd"] is not None:
@@ -286,7 +296,7 @@ def run_case(case: Dict[str, Any], ctx) -> None:
     def src_of(i):
         k = 0
         for g in built_groups:
-            for _ in g["params"]:
+            for _ in ([g["params"]] if isinstance(g["params"], torch.Tensor) else g["params"]):
                 if k == i:
                     return g
                 k += 1
